@@ -189,6 +189,6 @@ def wf0 (i : Input) : Bool :=
 /-- `wf0` and no anchor carries object-lib data (no contextual attachments, no `public.objectLibs` access): the inputs of
     the theorems about the complete set of lookups; the contextual theorems need `wf0` only -/
 def wf (i : Input) : Bool :=
-  wf0 i && i.glyphs.all (fun g => g.anchors.all (fun a => a.lib.isNone && !a.idNoLib))
+  wf0 i && i.glyphs.all (fun g => g.anchors.all (fun a => a.lib.isNone))
 
 end Ufo2ft.C06
